@@ -1,0 +1,7 @@
+//go:build verif
+// +build verif
+
+package replication
+
+// VerifTickDR runs one DR auto-sync tick (verification hook; the public Run waits before ticking).
+func (m *ModeManager) VerifTickDR() { m.tickDR() }
